@@ -2,6 +2,52 @@ From Coq Require Import String.
 From GS Require Import GoSem Text Dispatch DispatchParsers DispatchScan Meter.
 Open Scope N_scope.
 
+(* The acceptor of Meter.v on binary numbers.  Meter.v counts in nat, which extraction keeps unary; recorded counts reach 2^62
+   (the pipelines Add byte and line counts), so the runner evaluates [acceptsN], proved equal to [accepts] on the images. *)
+Inductive lineN := ProgN (f c : N) | FinalN (f c : N).
+Definition to_line (l : lineN) : line :=
+  match l with ProgN f c => Prog (N.to_nat f) (N.to_nat c) | FinalN f c => Final (N.to_nat f) (N.to_nat c) end.
+Definition to_phase (p : N * N) : nat * nat := (N.to_nat (fst p), N.to_nat (snd p)).
+
+Fixpoint take_progsN (f : N) (o : list lineN) (last bound : N) : option (list lineN) :=
+  match o with
+  | ProgN f' c :: o' => if (f' =? f) && (last <=? c) && (c <=? bound) then take_progsN f o' c bound else None
+  | _ => Some o
+  end.
+
+Fixpoint acceptsN (ps : list (N * N)) (o : list lineN) : bool :=
+  match ps with
+  | [] => match o with [] => true | _ => false end
+  | (f, n) :: ps' =>
+      match take_progsN f o 0 n with
+      | Some (FinalN f' c :: o') => (f' =? f) && (c =? n) && acceptsN ps' o'
+      | _ => false
+      end
+  end.
+
+Lemma nat_eqb_N a b : Nat.eqb (N.to_nat a) (N.to_nat b) = (a =? b).
+Proof. destruct (N.eqb_spec a b) as [->|H]; [apply Nat.eqb_refl|]. apply Nat.eqb_neq. lia. Qed.
+Lemma nat_leb_N a b : Nat.leb (N.to_nat a) (N.to_nat b) = (a <=? b).
+Proof. destruct (N.leb_spec a b); [apply Nat.leb_le|apply Nat.leb_gt]; lia. Qed.
+
+Lemma take_progsN_spec f bound : forall o last,
+  take_progs (N.to_nat f) (map to_line o) (N.to_nat last) (N.to_nat bound) = option_map (map to_line) (take_progsN f o last bound).
+Proof.
+  induction o as [|l o IH]; intros last; [reflexivity|]. destruct l as [f' c|f' c]; cbn [map to_line take_progs take_progsN]; [|reflexivity].
+  rewrite nat_eqb_N, !nat_leb_N. destruct ((f' =? f) && (last <=? c) && (c <=? bound)); [apply IH|reflexivity].
+Qed.
+
+Theorem acceptsN_accepts : forall ps o, acceptsN ps o = accepts (map to_phase ps) (map to_line o).
+Proof.
+  induction ps as [|[f n] ps IH]; intros o; cbn [acceptsN accepts map to_phase fst snd].
+  - destruct o; reflexivity.
+  - change 0%nat with (N.to_nat 0). rewrite take_progsN_spec. destruct (take_progsN f o 0 n) as [[|[f' c|f' c] o']|]; cbn [option_map map to_line]; try reflexivity.
+    rewrite !nat_eqb_N, IH. reflexivity.
+Qed.
+
+Theorem acceptsN_sound : forall ps o, acceptsN ps o = true -> Blocks (map to_phase ps) (map to_line o).
+Proof. intros ps o H. apply accepts_sound. rewrite <- acceptsN_accepts. exact H. Qed.
+
 Definition phase_of (tok : bytes) : option (nat * nat) :=
   match fields tok with
   | [a; b] => match undec a, undec b with Some x, Some y => Some (N.to_nat x, N.to_nat y) | _, _ => None end
@@ -23,12 +69,27 @@ Fixpoint split_at_bar (toks : list bytes) : list bytes * list bytes :=
   | t :: toks' => if beqb t (str "|") then ([], toks') else let '(a, b) := split_at_bar toks' in (t :: a, b)
   end.
 
+Definition phaseN_of (tok : bytes) : option (N * N) :=
+  match fields tok with
+  | [a; b] => match undec a, undec b with Some x, Some y => Some (x, y) | _, _ => None end
+  | _ => None
+  end.
+
+Definition lineN_of (tok : bytes) : option lineN :=
+  match fields tok with
+  | [k; a; b] => match undec a, undec b with
+                 | Some x, Some y => if beqb k (str "P") then Some (ProgN x y)
+                                     else if beqb k (str "F") then Some (FinalN x y) else None
+                 | _, _ => None end
+  | _ => None
+  end.
+
 (* meter <f:n>* | <P:f:c / F:f:c>* *)
 Definition dispatch_meter (cmd : bytes) (args : list bytes) : option bytes :=
   if beqb cmd (str "meter") then
     Some (let '(ps, ls) := split_at_bar args in
-          let phases := flat_map (fun t => match phase_of t with Some p => [p] | None => [] end) ps in
-          let lines := flat_map (fun t => match line_of t with Some l => [l] | None => [] end) ls in
+          let phases := flat_map (fun t => match phaseN_of t with Some p => [p] | None => [] end) ps in
+          let lines := flat_map (fun t => match lineN_of t with Some l => [l] | None => [] end) ls in
           if (length phases =? length ps)%nat && (length lines =? length ls)%nat
-          then bool_b (accepts phases lines) else err "bad meter request")
+          then bool_b (acceptsN phases lines) else err "bad meter request")
   else None.
